@@ -283,6 +283,34 @@ int main(int argc, char** argv)
       }
     }
   }
+  else if(mode == "bytes")
+  {
+    // every 7-bit character (XML allows TAB, LF, CR and 0x20..0x7f) alone, between two letters and doubled, as attribute value and as text:
+    // an escape table has one entry per character, a sample of them proves nothing
+    for(int b = 1; b < 0x80; ++b) for(int form = 0; form < 3; ++form) for(int where = 0; where < 2; ++where)
+    {
+      if(b < 0x20 && b != '\t' && b != '\n' && b != '\r') continue;
+      if(!sh.take()) continue;
+      std::string v = form == 0 ? std::string(1, (char)b) : form == 1 ? std::string("x") + (char)b + "y" : std::string(2, (char)b) + "z";
+      bool blank = true; for(size_t j = 0; j < v.size(); ++j) if(!strchr(" \n\r\t", v[j])) blank = false;
+      if(where == 1 && (blank || strchr(" \n\r\t", v[0]) || strchr(" \n\r\t", v[v.size() - 1]))) continue;   // white space at the edge of text is not preserved by design
+      MNode root; root.name = "r";
+      if(where == 0) root.attrs.push_back(std::make_pair(std::string("v"), v));
+      else { MNode x; x.isText = true; x.text = v; root.kids.push_back(x); }
+      Xml::Element e = build(root);
+      std::string cs = vf::fmt("bytes char=0x%02x form=%d where=%s", b, form, where ? "text" : "attribute");
+      vf::crumb("xml.bytes", sh.token(), cs);
+      vf::watchdog_arm(20000);
+      String text = Xml::toString(e);
+      vf::Exact ex(sstr(text), true);
+      Xml::Parser ps; Xml::Element back;
+      vf::hit("byte_documents"); vf::hit("distinct_nontrivial");
+      std::string why;
+      if(!ps.parse(String::fromCString(ex.p, text.length()), back))
+        vf::violation("C16:xml:roundtrip", cs, vf::fmt("serialised text is rejected: line %d column %d: %s", ps.getErrorLine(), ps.getErrorColumn(), (const char*)ps.getErrorString()));
+      else if(!same(back, root, why, "/r")) vf::violation("C16:xml:roundtrip", cs, "re-parsed tree differs: " + why);
+    }
+  }
   else if(mode == "sizes")
   {
     // buffer-size boundaries of the serialiser: values  a^p  c^n  z^t  for every character c that needs an escape (and one that does not),
